@@ -256,8 +256,16 @@ def main():
         seen_known.setdefault(k["id"], (k, []))[1].append(nm)
     for kid, (k, names) in seen_known.items():
         print(f"KNOWN-FINDING: property={prop} {k['id']} {k['what']}")
+    printed = set()
     for ob, rp, reproduced in violations:
         tail = "" if reproduced else " no-failing-input-found"
+        key = ob.name.split("@")[0]
+        if key in printed:
+            continue            # the same clause on another path: one line (and one replay file) per clause
+        printed.add(key)
+        if len(printed) > 40:
+            print(f"... {len(violations)} failed obligations in total (see evidence)")
+            break
         print(f"VIOLATION property={prop} replay={rp} obligation={ob.name}{tail}")
     for v, rp in standin_viol:
         print(f"VIOLATION property={prop} replay={rp} obligation=bounded-standin:{v.get('tag')}")
